@@ -596,7 +596,18 @@ func (g *Gen) Stage(d int, top bool) *Node {
 		}
 		return ObjN("$lookup", ObjN("from", g.nsFrom(), "localField", FreeS(g.Field()), "foreignField", FreeS(g.Field()), "as", FreeS("joined")))
 	case 15:
-		return ObjN("$graphLookup", ObjN("from", g.nsColl(), "startWith", g.exprDoc(d-1), "connectFromField", FreeS(g.Field()), "connectToField", FreeS(g.Field()),
+		var sw *Node
+		switch g.R.Intn(4) {
+		case 0:
+			sw = g.Ref()
+		case 1:
+			sw = g.LitClass(g.pick("str", "email", "oid", "num"), "graphLookup-startWith")
+		case 2:
+			sw = ArrN(g.LitClass("str", "graphLookup-startWith"), g.LitClass("str", "graphLookup-startWith"))
+		default:
+			sw = g.exprDoc(d - 1)
+		}
+		return ObjN("$graphLookup", ObjN("from", g.nsFrom(), "startWith", sw, "connectFromField", FreeS(g.Field()), "connectToField", FreeS(g.Field()),
 			"as", FreeS("chain"), "maxDepth", FreeI(3), "depthField", FreeS("depth"), "restrictSearchWithMatch", g.Query(d-1)))
 	case 16:
 		return ObjN("$replaceWith", g.exprMap("replaceWith", d))
